@@ -314,6 +314,24 @@ def gen(rng, tier):
                     reqs.append("C10 form %d %s %s" % (i, ws(t, s), wb(k, m)))
                 else:
                     reqs.append("C10 form %d %s %s" % (i, wb(k, m), ws(t, s)))
+            # two-digit scalar divisors on the rare windows of Knuth's algorithm D (see gens/c03.py core_pairs): the
+            # u128 / i128 division forms may have a dedicated two-digit routine (C10-x1)
+            if op in (4, 5) and NAMES[t] in ("u128", "i128") and shape != 2:
+                def knuth2():
+                    import c03 as _c03
+                    out = []
+                    for tag, a, b in _c03.core_pairs(rng, 2, ["maxlow", "corr", "corr2", "b1zero", "min", "allmax", "rand"]):
+                        sh = rng.choice([0, 0, 1, 7, 63]) if NAMES[t] == "u128" else rng.choice([1, 2, 9, 62])
+                        d, aa = b >> sh, a >> sh
+                        if d >= (1 << 64) and d <= smax(t):
+                            out.append((aa, d))
+                    rng.shuffle(out)
+                    return out or [(1 << 191, (1 << 126) + (1 << 64) - 1)]
+                g2 = group((k, "knuth2", t), knuth2)
+                for (aa, d) in take(g2, max(6, N // 2)):
+                    x = aa if k == 1 else rng.choice([aa, -aa])
+                    sd = d if (k == 1 or NAMES[t] == "u128" or rng.randrange(2)) else -d
+                    reqs.append("C10 form %d %s %s" % (i, wb(k, x), ws(t, sd)))
         elif shape == 5:
             g = group((k, op, t, shape), lambda: rem_assign_pairs(rng, t, 4 * N))
             for (s, d) in take(g, N):
